@@ -28,6 +28,7 @@ def queries():
     # ST::string operations (the value-semantics harness of C04 with a symbolic failing allocation): copy, assignment, +=, +, slicing, case mapping, trim, replace
     for op, nm, mm, tiers in ((1, 'copy_ctor', 5, ('quick', 'thorough')), (2, 'copy_assign', 5, ('quick', 'thorough')), (5, 'append_self', 4, ('quick', 'thorough')), (7, 'concat', 4, ('quick', 'thorough')), (8, 'substr_whole', 5, ('quick', 'thorough')),
                               (10, 'trim', 5, ('quick', 'thorough')), (11, 'to_upper', 5, ('quick', 'thorough')), (12, 'left_all', 5, ('thorough',)), (13, 'right_all', 5, ('quick', 'thorough')), (15, 'append', 4, ('quick', 'thorough')),
+                              (17, 'concat_cstr', 4, ('quick', 'thorough')), (18, 'cstr_concat', 4, ('quick', 'thorough')), (19, 'concat_char', 4, ('quick', 'thorough')), (20, 'append_char', 4, ('quick', 'thorough')), (21, 'char32_concat', 4, ('quick', 'thorough')),
                               (6, 'replace_self', 4, ('thorough',)), (9, 'replace_nomatch', 4, ('thorough',))):
         qs.append(Q('string_%s' % nm, 'C04_value.c', 'string.cpp', config='small', defs={'OP': op, 'MAXS': mm, 'FAULT': 3}, unwind=2 * mm + 4, heap_cap=4 * mm + 8, tiers=tiers,
                     loops=[(r'vpx_memcmp', mm + 1), (r'vpx_memchr', mm + 2)], bound={'op': nm, 'strings<=': mm, 'failing allocation': 'index 0, 1 or 2 of the operation'}, timeout=900 if op not in (6, 9) else 3000, mem_gb=10))
